@@ -114,11 +114,12 @@ func TestVerifC01RedisBenignTable(t *testing.T) {
 	ops := []op{
 		{"hit:nil", true, func(err error) bool { return err == nil }, func(e *env) error { _, err := e.r.Get("present"); return err }},
 		{"set:nil", true, func(err error) bool { return err == nil }, func(e *env) error { return e.r.Set("k", "v") }},
-		{"get-miss:redis.Nil", true, func(err error) bool { return err == red.Nil }, func(e *env) error { _, err := e.r.Get("absent"); return err }},
-		{"hget-miss:redis.Nil", true, func(err error) bool { return err == red.Nil }, func(e *env) error { _, err := e.r.Hget("absent", "f"); return err }},
+		{"get-miss:nil-or-redis.Nil", true, func(err error) bool { return err == nil || err == red.Nil }, func(e *env) error { _, err := e.r.Get("absent"); return err }},
+		{"hget-miss:redis.Nil", true, func(err error) bool { return err == red.Nil }, func(e *env) error { _, err := e.r.HGet("absent", "f"); return err }},
+		{"lpop-empty:redis.Nil", true, func(err error) bool { return err == red.Nil }, func(e *env) error { _, err := e.r.LPop("absent"); return err }},
 		{"cancelled-context:context.Canceled", true, func(err error) bool { return err == context.Canceled }, func(e *env) error { _, err := e.r.GetCtx(cancelled, "present"); return err }},
 		{"ERR-reply", false, func(err error) bool { return err != nil }, func(e *env) error { _, err := e.r.Get("present"); return err }},
-		{"wrong-type-reply", false, func(err error) bool { return err != nil }, func(e *env) error { _, err := e.r.Hget("present", "f"); return err }},
+		{"wrong-type-reply", false, func(err error) bool { return err != nil }, func(e *env) error { _, err := e.r.HGet("present", "f"); return err }},
 		{"expired-context:context.DeadlineExceeded", false, func(err error) bool { return err == context.DeadlineExceeded }, func(e *env) error { _, err := e.r.GetCtx(expired, "present"); return err }},
 	}
 	var benignOps []op
@@ -172,6 +173,11 @@ func TestVerifC01RedisBenignTable(t *testing.T) {
 			before, vb := e.spy.ran, e.spy.verdicts
 			got := o.do(e)
 			m.Count("calls_failing", 1)
+			if e.spy.ran > before && got == breaker.ErrServiceUnavailable {
+				m.Violate("C01:reject:req-ran", desc, "call #%d ran the protected function and still returned ErrServiceUnavailable", i)
+				bad = true
+				break
+			}
 			if e.spy.ran == before {
 				rej++
 				if first < 0 {
